@@ -213,10 +213,11 @@ func legRobust(c *Ctx) {
 				return err
 			})
 			guarded("FindRunesMatchStartingAt", &bad, false, func() error {
-				if start < -1 || start > len(r) {
-					return nil // documented: the caller must pass an index inside the slice
+				m, err := re.FindRunesMatchStartingAt(r, start)
+				if m != nil {
+					_ = m.String()
+					m.Groups()
 				}
-				_, err := re.FindRunesMatchStartingAt(r, start)
 				return err
 			})
 			guarded("FindAllStringIndex", &bad, false, func() error { _, err := re.FindAllStringIndex(in, count); return err })
